@@ -501,6 +501,9 @@ namespace bloch::compiler {
         }
 
         if (expected.className.empty()) {
+            // A class reference or array never converts to a declared primitive parameter.
+            if (expected.value != ValueType::Unknown && !actual.className.empty())
+                return std::nullopt;
             if (expected.value == ValueType::Unknown || actual.value == ValueType::Unknown)
                 return 0;
             if (actual.className.empty()) {
